@@ -275,9 +275,23 @@ def e2e(ctx, res):
             res.violate("e2e-values", {"db": [[list(o), v] for o, v in db], "oids": oids, "form": form, "version": version, "level": level}, want, obs["result"], "multiget result differs from the values the agent sent", {"kind": "codec", "what": "e2e-values", "form": form, "level": level})
 
 
+def second_arc(ctx, res):
+    """OBJECT IDENTIFIER values below joint-iso-itu-t(2) with a second arc of 40 or more"""
+    for val in ([2, 39, 1], [2, 40, 1], [2, 47, 3], [2, 48, 3], [2, 999, 3], [2, 2**32 - 1]):
+        agent = RA.Agent(db=[((1, 3, 6, 1, 2, 1, 1, 2, 0), ["oid", val])])
+        obs, _ = O.impl_op("get", {"oid": [1, 3, 6, 1, 2, 1, 1, 2, 0]}, agent, "v2c", "noauth")
+        res.evaluations += 1
+        res.count("second-arc")
+        if obs["result"] != ["ok", ["oid", val]]:
+            res.violate("second-arc", {"value": val}, ["ok", ["oid", val]], obs["result"],
+                        "an OBJECT IDENTIFIER value reaches the caller as a different OID (first sub-identifier split with // 40, % 40)",
+                        {"kind": "codec", "what": "oid-second-arc"})
+
+
 def run(ctx):
     res = Result()
     reqs, impls = [], []
+    second_arc(ctx, res)
     unit_primitives(ctx, res, reqs, impls)
     unit_values(ctx, res, reqs, impls)
     unit_pdus(ctx, res, reqs, impls)
